@@ -51,6 +51,9 @@ pub enum Op {
         to: Option<u8>,
     },
     Collect { caller: u8 },
+    /// adversarial: the direct `WithdrawLiquidity {}` message (token-factory LP pools) with one
+    /// native coin of denom uaaa / ubbb / uccc attached, sent to this cw20-LP pool
+    WithdrawDirect { user: u8, denom: u8, amount: Uint128 },
     /// directed shape: a swap sized (by bisection over the pool's own Simulation query) so that the
     /// pending protocol fee of the ask asset lands exactly on `target` (the collection threshold
     /// and its neighbours); with `then_collect` a separate, separately judged Collect step follows
@@ -110,10 +113,12 @@ pub fn op() -> BoxedStrategy<Op> {
         3 => (0u8..4, amt(), amt(), proptest::option::of(0u8..4), proptest::option::of(0u8..4), any::<bool>())
             .prop_map(|(user, a0, a1, slippage, receiver, reversed)| Op::Provide { user, a0, a1, slippage, receiver, reversed }),
         3 => (0u8..4, any::<u16>()).prop_map(|(user, k)| Op::ProvideBalanced { user, k }),
-        4 => (0u8..4, any::<u16>()).prop_map(|(user, k)| Op::Withdraw { user, k }),
+        4 => (0u8..4, gen::share_sel()).prop_map(|(user, k)| Op::Withdraw { user, k }),
         8 => (0u8..4, any::<bool>(), small_amt(), spread(), proptest::option::weighted(0.2, 0u8..4))
             .prop_map(|(user, dir, amt, spread, to)| Op::Swap { user, dir, amt, spread, to }),
         2 => (0u8..5).prop_map(|caller| Op::Collect { caller }),
+        1 => (0u8..4, 0u8..3, prop_oneof![Just(1u128), Just(999), Just(1000), Just(1001), gen::amount(1, 1u128 << 70)])
+            .prop_map(|(user, denom, a)| Op::WithdrawDirect { user, denom, amount: Uint128::new(a) }),
         1 => (0u8..4, any::<bool>(), prop_oneof![Just(999u16), Just(1000), Just(1001), 1u16..3000], proptest::bool::weighted(0.8))
             .prop_map(|(user, dir, target, then_collect)| Op::SwapToPending { user, dir, target, then_collect }),
         1 => fee_arr().prop_map(|fees| Op::SetFees { fees }),
@@ -175,7 +180,7 @@ impl Check for CpPoolHistory {
         "cp_pool_history"
     }
     fn rule(&self) -> &'static str {
-        "configuration (native/cw20 kinds, decimals, fee triple) + history of up to 40 (quick) / 120 (thorough) operations by 4 users {provide, balanced provide, withdraw, native/cw20 swap with spread settings and receivers, fee collection by anyone, swap sized by bisection over the Simulation query so that the pending protocol fee lands exactly on 999 / 1000 / 1001 (the collection threshold) or a random target, followed by a separately judged collection, fee change through the factory, donation, provide-then-withdraw, block advance}, amounts absolute (log-uniform up to 2^120 + boundaries) or relative to reserves/balances; the real pair created through the real factory. After every step: Pool query succeeds, balance >= reserve + pending fee, geometric mean per LP not lower (exact U1024), withdrawals <= pro-rata, deposit-then-withdraw <= deposited, minimum-liquidity stake locked, rejected step leaves the world snapshot unchanged. Non-trivial: >= 1 successful swap and >= 1 successful withdrawal after a second depositor joined; distinct by case hash."
+        "configuration (native/cw20 kinds, decimals, fee triple) + history of up to 40 (quick) / 120 (thorough) operations by 4 users {provide, balanced provide, withdraw, native/cw20 swap with spread settings and receivers, fee collection by anyone, the direct WithdrawLiquidity message with a native coin attached (must never pay anyone who gives up no LP), swap sized by bisection over the Simulation query so that the pending protocol fee lands exactly on 999 / 1000 / 1001 (the collection threshold) or a random target, followed by a separately judged collection, fee change through the factory, donation, provide-then-withdraw, block advance}, amounts absolute (log-uniform up to 2^120 + boundaries) or relative to reserves/balances; the real pair created through the real factory. After every step: Pool query succeeds, balance >= reserve + pending fee, geometric mean per LP not lower (exact U1024), withdrawals <= pro-rata, deposit-then-withdraw <= deposited, minimum-liquidity stake locked, rejected step leaves the world snapshot unchanged. Non-trivial: >= 1 successful swap and >= 1 successful withdrawal after a second depositor joined; distinct by case hash."
     }
     fn strategy(&self, tier: Tier) -> BoxedStrategy<Case> {
         let max_ops = tier.pick(40usize, 120usize);
@@ -351,6 +356,27 @@ impl Check for CpPoolHistory {
                         if target == 1000 {
                             rec.class("pending_fee_exactly_at_collection_threshold");
                         }
+                    }
+                    r.map(|_| ())
+                }
+                Op::WithdrawDirect { user, denom, amount } => {
+                    let usr = pw.user(*user);
+                    let d = ["uaaa", "ubbb", "uccc"][(*denom % 3) as usize];
+                    let b = [pw.w.bal(&pw.infos[0], &usr), pw.w.bal(&pw.infos[1], &usr)];
+                    let lp_b = pw.lp_balance(&usr);
+                    let r = pw.withdraw_direct(&usr, d, amount.u128());
+                    if r.is_ok() {
+                        rec.class("withdraw_direct_accepted");
+                        // whatever the pool does with the message, nobody may be paid out of the pool
+                        // without giving up LP shares
+                        let a = [pw.w.bal(&pw.infos[0], &usr), pw.w.bal(&pw.infos[1], &usr)];
+                        let lp_a = pw.lp_balance(&usr);
+                        ensure!(
+                            lp_a < lp_b || (a[0] <= b[0] && a[1] <= b[1]),
+                            "step {step}: the direct WithdrawLiquidity message with {amount}{d} attached paid the sender out of the pool (balances {b:?} -> {a:?}) although its LP balance did not fall ({lp_b} -> {lp_a})"
+                        );
+                    } else {
+                        rec.class("withdraw_direct_rejected");
                     }
                     r.map(|_| ())
                 }
